@@ -922,3 +922,4 @@ REALISERS.append(("pygopherd/handlers/base.py::VFS_Real.copyto", _first_confirme
 REALISERS.append(("pygopherd/protocols/http.py::HTTPProtocol.handle", lambda d: (r_handle_faults(d) if d.get("kind") != "standin" else (lambda a, b: a if a.get("confirmed") else b)(r_site_crawl(d), r_handle_faults(d)))))
 
 REALISERS.append(("pygopherd/protocols/base.py::BaseGopherProtocol.filenotfound", r_handle_faults))
+REALISERS.append(("pygopherd/handlers/UMN.py::", _first_confirmed(lambda d: r_dir(dict(d, obligation=d.get("obligation", "") + " processLinkFile prepare prep_entries")), r_c01_audit)))
